@@ -2137,3 +2137,344 @@ Proof.
       destruct (run_listeners _ _ _); cbn [wrap] in Hstep; injection Hstep as <- <-; apply Hl.
     + injection Hstep as <- <-. reflexivity.
 Qed.
+
+(* ------------------------------------------------------------------------------------------ *)
+(* 9. C02 for ALL outcomes: what was submitted before a handler aborted (a panic of the process
+      does not take a sendrawtransaction back) is justified just the same *)
+
+Definition state_of {A} (r : res A) : tower := match r with Ok _ t | Abort _ t => t end.
+
+Lemma ext_handle_all sc t0 D t uuid a p :
+  Ext sc t0 D t -> find_app (db_apps t0) uuid = Some a -> D (a_loc a) ->
+  decrypt (a_blob a) (a_loc a) = Some p ->
+  Ext sc t0 D (state_of (r_handle_breach sc t uuid (a_loc a) p)).
+Proof.
+  intros E Hf HD Hd. destruct (r_handle_breach sc t uuid (a_loc a) p) as [s t'|site t'] eqn:Er; cbn [state_of].
+  - apply (ext_handle sc t0 D t uuid a p s t' E Hf HD Hd Er).
+  - apply handle_breach_abort in Er. destruct Er as [_ [-> _]]. exact E.
+Qed.
+
+Lemma breach_uuid_loop_ext sc t0 D d us : forall t inv,
+  Ext sc t0 D t -> D d -> (forall u, In u us -> fst u = d) ->
+  Ext sc t0 D (state_of (breach_uuid_loop sc d us t inv)).
+Proof.
+  induction us as [|uuid us IH]; intros t inv E HD Hd; cbn [breach_uuid_loop]; [exact E|].
+  assert (Happs : db_apps t0 = db_apps t) by apply (ext_core sc t0 D t E).
+  rewrite <- Happs.
+  destruct (find_app (db_apps t0) uuid) as [a|] eqn:Ef; [|exact E].
+  destruct (find_app_Some _ _ _ Ef) as [Hin Hu].
+  assert (Hloc : d = a_loc a).
+  { rewrite <- (Hd uuid (or_introl eq_refl)), <- Hu. reflexivity. }
+  assert (Hd' : forall u, In u us -> fst u = d) by (intros u Hi; apply Hd; right; exact Hi).
+  destruct (decrypt (a_blob a) d) as [p|] eqn:Edec; [|apply IH; assumption].
+  rewrite Hloc in Edec. assert (HDa : D (a_loc a)) by (rewrite <- Hloc; exact HD).
+  pose proof (ext_handle_all sc t0 D t uuid a p E Ef HDa Edec) as H1. rewrite <- Hloc in H1.
+  destruct (r_handle_breach sc t uuid d p) as [s t1|site t1]; cbn [bind state_of] in *; [|exact H1].
+  apply IH; assumption.
+Qed.
+
+Lemma breach_loop_ext sc t0 D ds : forall t inv,
+  Ext sc t0 D t -> (forall d, In d ds -> D d) -> Ext sc t0 D (state_of (breach_loop sc ds t inv)).
+Proof.
+  induction ds as [|d ds IH]; intros t inv E HD; cbn [breach_loop]; [exact E|].
+  assert (Happs : db_apps t0 = db_apps t) by apply (ext_core sc t0 D t E).
+  set (us := map app_uuid (filter (fun a => N.eqb (a_loc a) d) (db_apps t))).
+  assert (Hus : forall u, In u us -> fst u = d).
+  { intros u Hu. apply in_map_iff in Hu. destruct Hu as [a [<- Ha]]. apply filter_In in Ha.
+    destruct Ha as [_ Ha]. apply N.eqb_eq in Ha. exact Ha. }
+  pose proof (breach_uuid_loop_ext sc t0 D d us t inv E (HD d (or_introl eq_refl)) Hus) as H1.
+  destruct (breach_uuid_loop sc d us t inv) as [inv1 t1|site t1]; cbn [bind state_of] in *; [|exact H1].
+  apply IH; [exact H1|]. intros x Hx. apply HD. right. exact Hx.
+Qed.
+
+(* the watcher's listener, whatever its outcome *)
+Lemma w_block_connected_log_all sc t hash txs h :
+  exists evs, rpc_log (state_of (w_block_connected sc t (cache_block hash txs) h)) = evs ++ rpc_log t /\
+    forall e, In e evs -> exists a, In a (db_apps t) /\ In (a_loc a) txs /\
+                                    decrypt (a_blob a) (a_loc a) = Some (r_tx e).
+Proof.
+  unfold w_block_connected.
+  destruct (ti_update (w_cache t) (cache_block hash txs)) as [c|]; [|exists []; split; [reflexivity|intros e []]].
+  rewrite keys_of_cache_block. cbn [db_apps set_w_cache].
+  set (t1 := set_w_cache t c).
+  set (ds := filter (fun d => existsb (fun a => N.eqb (a_loc a) d) (db_apps t)) txs).
+  assert (HD : forall d, In d ds -> In d txs) by (intros d Hd; apply filter_In in Hd; apply Hd).
+  pose proof (breach_loop_ext sc t1 (fun d => In d txs) ds t1 [] (ext_refl sc t1 _) HD) as E.
+  destruct (breach_loop sc ds t1 []) as [inv t2|site t2]; cbn [bind state_of] in *.
+  - destruct (ext_log _ _ _ _ E) as [evs [Hl Hj]].
+    assert (Hlog : forall t3, match inv with [] => Ok tt t2 | _ :: _ => gk_delete_appointments t2 inv false end = Ok tt t3 ->
+                              rpc_log t3 = rpc_log t2).
+    { intros t3 H. apply delete_invalid_spec in H. symmetry. apply H. }
+    destruct (match inv with [] => Ok tt t2 | _ :: _ => gk_delete_appointments t2 inv false end) as [[] t3|site t3] eqn:Ed.
+    + cbn [bind state_of rpc_log set_w_height]. exists evs. split; [rewrite (Hlog t3 eq_refl); exact Hl|exact Hj].
+    + exfalso. destruct inv; [discriminate|]. cbn in Ed. discriminate.
+  - destruct (ext_log _ _ _ _ E) as [evs [Hl Hj]]. exists evs. split; [exact Hl|exact Hj].
+Qed.
+
+Lemma refund_loop_same_all us : forall t, same_but_users t (state_of (refund_loop t us)).
+Proof.
+  induction us as [|uuid us IH]; intros t; cbn [refund_loop]; [apply same_but_users_refl|].
+  destruct (find_app (db_apps t) uuid) as [a|]; [|apply same_but_users_refl].
+  destruct (gk_get t (a_user a)) as [ui|]; [|apply same_but_users_refl].
+  destruct (u32_add (u_slots ui) (slots_of (b_len (a_blob a)))) as [s|]; [|apply same_but_users_refl].
+  eapply same_but_users_trans; [|apply IH]. repeat split.
+Qed.
+
+Section ResponderAll.
+  Context (tb : tower).
+
+  (* the part of the responder's invariant that concerns what is submitted *)
+  Record RL (t : tower) : Prop := {
+    rl_ids : incl (map trk_id (db_trks t)) (map trk_id (db_trks tb));
+    rl_reorged : incl (reorged t) (reorged tb);
+    rl_log : exists evs, rpc_log t = evs ++ rpc_log tb /\ forall e, In e evs -> jr tb e
+  }.
+
+  Lemma rl_base : RL tb.
+  Proof. constructor; try apply incl_refl. exists []. split; [reflexivity|intros e []]. Qed.
+
+  Lemma rl_frame t t' :
+    db_trks t = db_trks t' -> incl (reorged t') (reorged t) -> rpc_log t = rpc_log t' -> RL t -> RL t'.
+  Proof.
+    intros Hk Hr Hl [I1 I2 I3]. constructor; rewrite <- ?Hk, <- ?Hl; auto. eapply incl_tran; eassumption.
+  Qed.
+
+  Lemma rl_origin t k : RL t -> In k (db_trks t) -> exists k0, In k0 (db_trks tb) /\ trk_id k0 = trk_id k.
+  Proof.
+    intros R Hi. apply (in_map trk_id) in Hi. apply (rl_ids t R) in Hi.
+    apply in_map_iff in Hi. destruct Hi as [k0 [He Hi]]. exists k0. split; assumption.
+  Qed.
+
+  Lemma rl_send sc t tx :
+    RL t ->
+    (exists k, In k (db_trks tb) /\ (tx = t_penalty k \/ (tx = t_dispute k /\ In (trk_uuid k) (reorged tb)))) ->
+    RL (snd (send_transaction sc t tx)).
+  Proof.
+    intros R Hj. destruct (send_transaction sc t tx) as [s t1] eqn:Hs. cbn [snd].
+    apply send_transaction_spec in Hs. destruct Hs as [Ht [Hc Hcase]].
+    destruct (aget (car_memo t) tx).
+    - destruct Hcase as [_ ->]. exact R.
+    - destruct Hcase as [_ [_ Hl]]. destruct R as [I1 I2 I3].
+      assert (Hk : db_trks t = db_trks t1) by apply Ht.
+      assert (Hr : reorged t = reorged t1) by apply Hc.
+      constructor; rewrite <- ?Hk, <- ?Hr; auto.
+      destruct I3 as [evs [He Hall]]. exists (ev_send tx s :: evs). split; [rewrite Hl, He; reflexivity|].
+      intros e [<-|Hi]; [|apply Hall; exact Hi]. split; [reflexivity|exact Hj].
+  Qed.
+
+  Lemma rl_status t uuid hh c : RL t -> RL (set_trk_status t uuid hh c).
+  Proof.
+    intros [I1 I2 I3]. unfold set_trk_status. constructor; cbn [db_trks reorged rpc_log set_db_trks]; auto.
+    rewrite map_map. intros x Hx. apply I1. apply in_map_iff in Hx. destruct Hx as [k [He Hi]].
+    apply in_map_iff. exists k. split; [|exact Hi]. rewrite <- He.
+    destruct (uuid_eqb (trk_uuid k) uuid); reflexivity.
+  Qed.
+
+  Lemma rl_gk_delete t us refund : RL t -> RL (state_of (gk_delete_appointments t us refund)).
+  Proof.
+    intros R.
+    assert (Hdel : forall t1, RL t1 -> RL (db_delete_apps t1 us)).
+    { intros t1 [I1 I2 I3]. unfold db_delete_apps. constructor; cbn [db_trks reorged rpc_log set_db_trks set_db_apps]; auto.
+      intros x Hx. apply I1. apply in_map_iff in Hx. destruct Hx as [k [He Hi]]. apply filter_In in Hi.
+      apply in_map_iff. exists k. split; [exact He|apply Hi]. }
+    unfold gk_delete_appointments. destruct refund; [|cbn [state_of]; apply Hdel; exact R].
+    pose proof (refund_loop_same_all us t) as Hs. unfold same_but_users in Hs.
+    assert (R1 : RL (state_of (refund_loop t us))).
+    { apply (rl_frame t _); try apply Hs; [|exact R].
+      replace (reorged (state_of (refund_loop t us))) with (reorged t) by apply Hs. apply incl_refl. }
+    destruct (refund_loop t us) as [[] t1|site t1]; cbn [bind state_of] in *; [apply Hdel; exact R1|exact R1].
+  Qed.
+
+  Lemma check_conf_all le txs h snap : forall t comp, RL t -> RL (state_of (check_conf_loop le txs h snap t comp)).
+  Proof.
+    induction snap as [|k snap IH]; intros t comp R; cbn [check_conf_loop]; [exact R|].
+    destruct (memN (t_penalty k) txs).
+    - destruct (find_trk (db_trks t) (trk_uuid k)); [|exact R].
+      apply IH. eapply rl_frame; [| | |apply (rl_status t (trk_uuid k) h true R)]; try reflexivity.
+      cbn [reorged set_reorged]. intros x Hx. apply filter_In in Hx. apply Hx.
+    - destruct (mem_uuid (trk_uuid k) (reorged t)); [apply IH; exact R|].
+      destruct (t_conf k); [|apply IH; exact R].
+      destruct (u32_sub h (t_height k)); [apply IH; exact R|exact R].
+  Qed.
+
+  Lemma reorged_loop_all sc h us : forall t rej,
+    (forall u, In u us -> In u (reorged tb)) -> RL t -> RL (state_of (reorged_loop sc h us t rej)).
+  Proof.
+    induction us as [|uuid us IH]; intros t rej Hus R; cbn [reorged_loop]; [exact R|].
+    assert (Hus' : forall u, In u us -> In u (reorged tb)) by (intros x Hx; apply Hus; right; exact Hx).
+    destruct (find_trk (db_trks t) uuid) as [k|] eqn:Ef; [|apply IH; assumption].
+    apply find_trk_Some in Ef. destruct Ef as [Hik Huk].
+    destruct (rl_origin t k R Hik) as [k0 [Hk0 Hid]]. apply trk_id_inj in Hid. destruct Hid as [Hu0 [Hd0 Hp0]].
+    assert (HR : In (trk_uuid k0) (reorged tb)) by (rewrite Hu0, Huk; apply Hus; left; reflexivity).
+    assert (R1 : RL (snd (send_transaction sc t (t_dispute k)))).
+    { apply rl_send; [exact R|]. exists k0. split; [exact Hk0|]. right. split; [congruence|exact HR]. }
+    destruct (send_transaction sc t (t_dispute k)) as [s t1]. cbn [snd] in R1.
+    assert (R2 : RL (snd (send_transaction sc t1 (t_penalty k)))).
+    { apply rl_send; [exact R1|]. exists k0. split; [exact Hk0|]. left. congruence. }
+    destruct (send_transaction sc t1 (t_penalty k)) as [s2 t2]. cbn [snd] in R2.
+    destruct s as [hh|hh| |c]; [exact R1| | |apply IH; assumption];
+      (destruct (status_rejected s2); apply IH; [exact Hus'|exact R2|exact Hus'|apply rl_status; exact R2]).
+  Qed.
+
+  Lemma stale_loop_all sc h us : forall t rej, RL t -> RL (state_of (stale_loop sc h us t rej)).
+  Proof.
+    induction us as [|uuid us IH]; intros t rej R; cbn [stale_loop]; [exact R|].
+    destruct (find_trk (db_trks t) uuid) as [k|] eqn:Ef; [|exact R].
+    apply find_trk_Some in Ef. destruct Ef as [Hik Huk].
+    destruct (rl_origin t k R Hik) as [k0 [Hk0 Hid]]. apply trk_id_inj in Hid. destruct Hid as [Hu0 [Hd0 Hp0]].
+    assert (R1 : RL (snd (send_transaction sc t (t_penalty k)))).
+    { apply rl_send; [exact R|]. exists k0. split; [exact Hk0|]. left. congruence. }
+    destruct (send_transaction sc t (t_penalty k)) as [s t1]. cbn [snd] in R1.
+    destruct s as [hh|hh| |c]; apply IH; try exact R1; apply rl_status; exact R1.
+  Qed.
+
+  Lemma r_block_connected_all le sc b h : RL (state_of (r_block_connected le sc tb b h)).
+  Proof.
+    unfold r_block_connected.
+    assert (R0 : RL (set_car_height tb h)) by (apply (rl_frame tb _); try reflexivity; [apply incl_refl|apply rl_base]).
+    destruct (ti_update (r_index (set_car_height tb h)) b) as [idx|]; [|exact R0].
+    set (t1 := set_r_index (set_car_height tb h) idx).
+    assert (R1 : RL t1) by (apply (rl_frame tb t1); try reflexivity; [apply incl_refl|apply rl_base]).
+    pose proof (check_conf_all le (keys_of (ib_data b)) h (db_trks t1) t1 [] R1) as R2.
+    destruct (check_conf_loop le (keys_of (ib_data b)) h (db_trks t1) t1 []) as [comp t2|site t2];
+      cbn [bind state_of] in *; [|exact R2].
+    assert (R3 : RL (state_of (match comp with [] => Ok tt t2 | _ :: _ => gk_delete_appointments t2 comp true end))).
+    { destruct comp; [exact R2|apply rl_gk_delete; exact R2]. }
+    destruct (match comp with [] => Ok tt t2 | _ :: _ => gk_delete_appointments t2 comp true end) as [[] t3|site t3];
+      cbn [bind state_of] in *; [|exact R3].
+    assert (Htail : forall rej1 t4, RL t4 ->
+              RL (state_of (match u32_sub h (Z.to_N Consts.CONFIRMATIONS_BEFORE_RETRY) with
+                            | None => Abort S_r_stale_underflow t4
+                            | Some lim =>
+                                let stale := map trk_uuid (filter (fun k => negb (t_conf k) && N.leb (t_height k) lim) (db_trks t4)) in
+                                do rej2, t5 <- stale_loop sc h stale t4 [];
+                                do _, t6 <- (match rej1 ++ rej2 with [] => Ok tt t5 | l => gk_delete_appointments t5 l false end);
+                                Ok tt (set_car_memo t6 [])
+                            end))).
+    { intros rej1 t4 R4. destruct (u32_sub h (Z.to_N Consts.CONFIRMATIONS_BEFORE_RETRY)) as [lim|]; [|exact R4].
+      cbv zeta.
+      pose proof (stale_loop_all sc h (map trk_uuid (filter (fun k => negb (t_conf k) && N.leb (t_height k) lim) (db_trks t4))) t4 [] R4) as R5.
+      destruct (stale_loop sc h _ t4 []) as [rej2 t5|site t5]; cbn [bind state_of] in *; [|exact R5].
+      destruct (rej1 ++ rej2) as [|r0 rs]; cbn [bind state_of].
+      - apply (rl_frame t5 _); try reflexivity; [apply incl_refl|exact R5].
+      - pose proof (rl_gk_delete t5 (r0 :: rs) false R5) as R6.
+        destruct (gk_delete_appointments t5 (r0 :: rs) false) as [[] t6|site t6]; cbn [bind state_of] in *; [|exact R6].
+        apply (rl_frame t6 _); try reflexivity; [apply incl_refl|exact R6]. }
+    destruct (reorged t3) as [|r0 rs] eqn:Ere; cbn [bind].
+    - apply Htail. exact R3.
+    - assert (R3' : RL (set_reorged t3 [])).
+      { apply (rl_frame t3 _); try reflexivity; [intros x []|exact R3]. }
+      assert (Hus : forall u, In u (r0 :: rs) -> In u (reorged tb)) by (rewrite <- Ere; apply (rl_reorged t3 R3)).
+      pose proof (reorged_loop_all sc h (r0 :: rs) (set_reorged t3 []) [] Hus R3') as R4.
+      destruct (reorged_loop sc h (r0 :: rs) (set_reorged t3 []) []) as [rej1 t4|site t4]; cbn [bind state_of] in *; [|exact R4].
+      apply Htail. exact R4.
+  Qed.
+End ResponderAll.
+
+Lemma w_add_appointment_abort_log sc t signer loc b delay sig site t' :
+  w_add_appointment sc t signer loc b delay sig = Abort site t' -> rpc_log t' = rpc_log t.
+Proof.
+  unfold w_add_appointment.
+  destruct (authenticate t signer) as [u|]; [|discriminate].
+  destruct (gk_get t u) as [ui|] eqn:Eg; [|intros H; injection H as _ <-; reflexivity].
+  destruct (N.leb (u_expiry ui) (gk_height t)); [discriminate|].
+  destruct (find_trk (db_trks t) (loc, u)); [discriminate|].
+  destruct (gk_add_update_appointment t u (loc, u) (b_len b)) as [charged t1|site1 t1] eqn:Ec; cbn [bind].
+  2: { unfold gk_add_update_appointment in Ec. rewrite Eg in Ec.
+       match type of Ec with (if ?c then _ else _) = _ => destruct c end; discriminate. }
+  apply add_update_appointment_spec in Ec. destruct Ec as [Hsame _].
+  assert (Hl1 : rpc_log t = rpc_log t1) by apply Hsame.
+  destruct charged as [av|]; [|discriminate].
+  set (a := mk_app loc u b delay sig (w_height t)).
+  assert (Hstore : forall t2 s2, w_store_appointment t1 a = Abort s2 t2 -> rpc_log t2 = rpc_log t1).
+  { unfold w_store_appointment. intros t2 s2. destruct (find_app (db_apps t1) (app_uuid a)); [discriminate|].
+    destruct (amem (db_users t1) (a_user a)); [discriminate|]. intros H; injection H as _ <-. reflexivity. }
+  destruct (ti_get (w_cache t1) loc) as [d|].
+  - unfold w_store_triggered. destruct (decrypt (a_blob a) d) as [p|].
+    + destruct (w_store_appointment t1 a) as [[] t2|s2 t2] eqn:Est; cbn [bind].
+      * apply store_appointment_spec in Est. subst t2.
+        destruct (r_handle_breach sc _ (app_uuid a) d p) as [s t3|s3 t3] eqn:Er; cbn [bind].
+        -- destruct (status_rejected s); cbn [gk_delete_appointments]; discriminate.
+        -- apply handle_breach_abort in Er. destruct Er as [_ [-> _]]. intros H. injection H as _ <-. cbn. symmetry. exact Hl1.
+      * intros H. injection H as _ <-. rewrite (Hstore _ _ eq_refl). symmetry. exact Hl1.
+    + destruct (find_app (db_apps t1) (app_uuid a)); cbn [gk_delete_appointments bind]; discriminate.
+  - destruct (w_store_appointment t1 a) as [[] t2|s2 t2] eqn:Est; cbn [bind]; [discriminate|].
+    intros H. injection H as _ <-. rewrite (Hstore _ _ eq_refl). symmetry. exact Hl1.
+Qed.
+
+(* C02, no_send_for_purged for every outcome of the Connect step, aborts included: when the
+   gatekeeper's listener (first in the generated order) aborts nothing has been issued; otherwise
+   every RPC issued before the step ended is justified by the rows left after its purge *)
+Theorem connect_rpcs_justified_all le t hash txs sc t' x :
+  Inv t -> step le t (OConnect hash txs) sc = (t', x) ->
+  match gk_block_connected (fresh t) (gk_height t + 1) with
+  | Ok _ tg => forall e, In e (rpc_log t') -> just_rpc tg (OConnect hash txs) e
+  | Abort _ _ => rpc_log t' = []
+  end.
+Proof.
+  intros HI Hstep.
+  cbn [step] in Hstep. change (set_rpc_log t []) with (fresh t) in Hstep.
+  change (gk_height (fresh t)) with (gk_height t) in Hstep. rewrite connect_unfold in Hstep.
+  destruct (gk_block_connected (fresh t) (gk_height t + 1)) as [[] tg|site tg] eqn:Eg; cbn [bind wrap] in Hstep.
+  2: { injection Hstep as <- _. unfold gk_block_connected in Eg.
+       destruct (outdated_users _ _ _); [discriminate|]. injection Eg as _ <-. reflexivity. }
+  assert (HIg : Inv tg).
+  { pose proof (gk_block_connected_pres Inv (sa_block Inv inv_stable) (fresh t) (gk_height t + 1) (inv_fresh t HI)) as Hp.
+    rewrite Eg in Hp. exact Hp. }
+  destruct (gk_block_connected_spec _ _ _ Eg) as [out [_ [_ [_ [_ [Heng _]]]]]].
+  assert (Hlg : rpc_log tg = []) by (symmetry; apply Heng).
+  destruct (w_block_connected_log_all sc tg hash txs (gk_height t + 1)) as [evw [Hlw Hjw]].
+  assert (Hwj : forall e, In e evw -> just_rpc tg (OConnect hash txs) e).
+  { intros e He. destruct (Hjw e He) as [a [Ha [Hl Hdec]]]. unfold just_rpc.
+    destruct (r_kind e); left; exists hash, txs, a; repeat split; assumption. }
+  destruct (w_block_connected sc tg (cache_block hash txs) (gk_height t + 1)) as [[] tw|site tw] eqn:Ew;
+    cbn [bind wrap state_of] in *.
+  2: { injection Hstep as <- _. rewrite Hlw, Hlg, app_nil_r. exact Hwj. }
+  destruct (w_block_connected_frame sc tg hash txs _ tw HIg Ew)
+    as [_ [_ [_ [_ [_ [_ [_ [Hre [_ [_ [Hnewk _]]]]]]]]]]].
+  pose proof (r_block_connected_all tw le sc (index_block hash txs) (gk_height t + 1)) as R.
+  assert (Ht' : t' = state_of (r_block_connected le sc tw (index_block hash txs) (gk_height t + 1))).
+  { destruct (r_block_connected le sc tw (index_block hash txs) (gk_height t + 1)) as [[] tr|site tr];
+      cbn [bind wrap] in Hstep; injection Hstep as <- _; reflexivity. }
+  rewrite <- Ht' in R. destruct (rl_log _ _ R) as [evr [Hlr Hjr]].
+  intros e He. rewrite Hlr, Hlw, Hlg, app_nil_r in He. apply in_app_or in He. destruct He as [He|He]; [|apply Hwj; exact He].
+  destruct (Hjr e He) as [Hk [k [Hik Hcase]]]. unfold just_rpc. rewrite Hk. unfold just_send.
+  destruct (Hnewk k Hik) as [Hold|[a [Ha Hm]]].
+  + destruct Hcase as [Hp|[Hd HR]].
+    * right. left. exists k. split; [exact Hold|symmetry; exact Hp].
+    * right. right. left. exists k. split; [exact Hold|]. split; [|symmetry; exact Hd].
+      apply mem_uuid_In. rewrite <- Hre. exact HR.
+  + destruct Hm as [HD [Hu [Hdis [Hdec [_ [_ Hfresh]]]]]].
+    destruct Hcase as [Hp|[Hd HR]].
+    * left. exists hash, txs, a. repeat split; [exact Ha|exact HD|]. rewrite Hp. exact Hdec.
+    * right. right. right. right. exists hash, txs, a. repeat split; [exact Ha|exact HD|congruence|congruence|].
+      apply mem_uuid_In. rewrite <- Hu, <- Hre. exact HR.
+Qed.
+
+(* C02, every_send_justified for every outcome of the step, aborts included *)
+Theorem every_rpc_justified_all le t o sc t' x :
+  Inv t -> step le t o sc = (t', x) -> forall e, In e (rpc_log t') -> just_rpc t o e.
+Proof.
+  intros HI Hstep.
+  destruct o as [u|signer loc b delay sig|signer loc|signer|hash txs|];
+    try (pose proof (quiet_step le t _ sc t' x Hstep) as Hq; cbv beta iota in Hq; rewrite Hq; intros e []).
+  - destruct x; try (apply (every_rpc_justified le t _ sc t' _ HI Hstep I)).
+    cbn [step] in Hstep.
+    destruct (w_add_appointment sc (set_rpc_log t []) signer loc b delay sig) as [r t1|site t1] eqn:Ew; cbn [wrap] in Hstep;
+      injection Hstep as <- Hx; [discriminate|].
+    apply w_add_appointment_abort_log in Ew. rewrite Ew. intros e [].
+  - pose proof (connect_rpcs_justified_all le t hash txs sc t' x HI Hstep) as H.
+    destruct (gk_block_connected (fresh t) (gk_height t + 1)) as [[] tg|site tg] eqn:Eg.
+    + intros e He. eapply just_rpc_purge; [exact Eg|]. apply H. exact He.
+    + rewrite H. intros e [].
+Qed.
+
+Theorem every_send_justified_all le t o sc t' x :
+  Inv t -> reorged_tracked t -> step le t o sc = (t', x) ->
+  forall e, In e (rpc_log t') -> r_kind e = K_send -> just_send4 t o (r_tx e).
+Proof.
+  intros HI HR Hstep e He Hk. pose proof (every_rpc_justified_all le t o sc t' x HI Hstep e He) as Hj.
+  unfold just_rpc in Hj. rewrite Hk in Hj. unfold just_send4.
+  destruct Hj as [H|[H|[H|[H|[hash [txs [a [_ [_ [_ [_ [Hf Hm]]]]]]]]]]]]; auto.
+  exfalso. apply mem_uuid_In in Hm. exact (HR _ Hm Hf).
+Qed.
